@@ -221,6 +221,20 @@ def _writer_conserves(ck, writer, cluster):
     # what is written: iteration over sorted(concat of the clustered lists)
     loops = [e for e in pa.events if e.kind == "foriter"]
     written = None
+    # f.writelines(<line built from c> for c in <clusters>): the loop written as a generator handed to writelines
+    for e in pa.events:
+        if e.kind == "call" and e.term[0] == "mcall" and e.term[2] == "writelines" and len(e.term[3]) == 1 and e.term[3][0][0] == "comp" \
+                and len(e.term[3][0][3]) == 1 and not e.term[3][0][3][0][1]:
+            comp = e.term[3][0]
+            base = comp[3][0][0]
+            while base[0] == "call" and base[1] in ("sorted", "list") and len(base[2]) == 1:
+                base = base[2][0]
+            if base[0] == "concat" and all(y[0] == "app" and y[1] == cluster.qualname for y in base[1]) and len(base[1]) == len(calls) and \
+                    any(y[0] == "bv" for y in T.subterms(comp[2])):
+                ck.ok("C20.4", "write_indel_file:written", where(writer, e.node),
+                      "the lines written are all clusters of both types (writelines over the sorted concatenation)", T.show(base)[:120])
+                ck.ok("C20.4", "write_indel_file:line-written", where(writer, e.node), "every cluster is turned into a line of the file", "")
+                return
     for e in loops:
         base = e.term
         while base[0] == "call" and base[1] in ("sorted", "list") and len(base[2]) == 1:
